@@ -3,7 +3,9 @@
 //! test is noisy in debug builds).
 
 mod batch;
+mod layout;
 mod lexparse;
+mod mangle;
 mod pipeline;
 mod resolve;
 mod topo_replay;
@@ -45,6 +47,8 @@ fn main() {
             println!("{:?}", p.errors().len());
         }
         "resolve" => resolve::main(&args[2..]),
+        "layout" => layout::main(&args[2..]),
+        "mangle" => mangle::main(&args[2..]),
         "tyrel" => tyrel::main(&args[2..]),
         "topo-replay" => topo_replay::main(&args[2..]),
         other => {
